@@ -87,6 +87,10 @@ func (node *tagMacroNode) call(ctx *ExecutionContext, args ...*Value) (*Value, e
 	var b bytes.Buffer
 	err := node.wrapper.Execute(macroCtx, &b)
 	if err != nil {
+		// (a copy is completed: a tag may hand out one and the same error object
+		// for all of its failures)
+		completed := *err
+		err = &completed
 		if err.Line <= 0 && err.Token == nil {
 			// an error without a position of its own is reported at the macro
 			// definition; name the file the definition is written in
